@@ -1,5 +1,6 @@
 import SamplyModel.Proto
 import SamplyModel.Model.FileCreation
+import SamplyModel.Model.DownloadWrite
 /-!
 Line protocol for C16. One case = one op line.
 
@@ -26,6 +27,15 @@ Line protocol for C16. One case = one op line.
 
 `symindex managers=<M> funcs=<F> seed=<s>`
     out: `symindex results ok=<M>`, `observations bad=0`, `final symindex=complete stable=yes`.
+
+`download fault=<none|fsize:N|abort:N> funcs=<F> tail=<T> size=<S> seed=<s>`
+    one `SymbolManager` in its own process downloads an `S`-byte `.sym` that arrives in two pieces (the last
+    `T` bytes separately) through `downloader.rs::download_to_file`; `fsize:N` = every write past byte N of
+    the file fails (RLIMIT_FSIZE), `abort:N` = the connection is lost after N body bytes; then a fault-free
+    retry. The model runs the download callback (`Model/DownloadWrite.lean`) to decide the writer's fate
+    and the file-creation model for the rest.
+    out: `download child=ok|err`, `observations bad=<n>`, `final dest=absent|complete|partial:<len>`,
+    `retry child=ok|err dest=<class>`.
 
 The judge evaluates the statement of C16 on the implementation's lines only (no model involved).
 -/
@@ -324,11 +334,44 @@ def simSymindex (ws : List String) : List String :=
   [s!"symindex results ok={ok}", s!"observations bad={sim.bad}",
    s!"final symindex={sim.destClass} stable=yes"]
 
+/-- stream and disk of a `download` case: two pieces (`size - tail`, `tail` bytes) -/
+def downloadEnv (ws : List String) : DL.Env × List (Option (List UInt8)) :=
+  let size := kvNat ws "size" 0
+  let tail := min (kvNat ws "tail" 1) size
+  let cut := size - tail
+  let fault := (kv ws "fault").getD "none"
+  let pieces : List (Option (List UInt8)) := [some [1], some [2]]
+  match fault.splitOn ":" with
+  | ["fsize", n] =>
+    let n := nat! n
+    -- the write that ends at byte `e` of the file succeeds iff `e ≤ N`
+    (⟨fun k => if k = 0 then decide (cut ≤ n) else decide (size ≤ n), fun _ => 0⟩, pieces)
+  | ["abort", n] =>
+    let n := nat! n
+    (⟨fun _ => true, fun _ => 0⟩, if n < cut then [some [1], none] else if n < size then [some [1], some [2], none] else pieces)
+  | _ => (⟨fun _ => true, fun _ => 0⟩, pieces)
+
+def simDownload (ws : List String) : List String :=
+  let (env, stream) := downloadEnv ws
+  let fate : Fate := match (DL.run env true stream).1 with
+    | .ok _ => .ok
+    | _ => .fail 1
+  let cfg : Cfg := { fates := [fate, .ok], sizes := [2] }
+  let sim := drain cfg {} [0]
+  let first := outcomeOf sim 0
+  let l1 := s!"download child={if first = "created" ∨ first = "existing" then "ok" else "err"}"
+  let l3 := s!"final dest={sim.destClass}"
+  let sim := drain cfg sim [1]
+  let r := outcomeOf sim 1
+  [l1, s!"observations bad={sim.bad}", l3,
+   s!"retry child={if r = "created" ∨ r = "existing" then "ok" else "err"} dest={sim.destClass}"]
+
 def model (ls : List String) : List String :=
   match ls with
   | [l] =>
     let ws := words l
     match ws.head? with
+    | some "download" => simDownload ws
     | some "trace" => simTrace ws
     | some "round" => simRound ws
     | some "symindex" => simSymindex ws
@@ -384,11 +427,24 @@ def judgeSymindex (ws impl : List String) : Bool × String :=
     else (true, "ok")
   | _, _, _ => (false, "missing summary lines")
 
+def judgeDownload (_ws impl : List String) : Bool × String :=
+  match findLine impl "download", findLine impl "observations", findLine impl "final", findLine impl "retry" with
+  | some d, some b, some f, some r =>
+    let dest := (kv f "dest").getD "?"
+    if kvNat b "bad" 1 ≠ 0 then (false, s!"the downloaded file was observed at its final path in a partial state ({kvNat b "bad" 1} observations)")
+    else if dest ≠ "absent" ∧ dest ≠ "complete" then (false, s!"after the download attempt the final path holds {dest}: neither absent nor the complete file")
+    else if (kv d "child").getD "?" = "ok" ∧ dest ≠ "complete" then (false, "the download reported success but the final path is not the complete file")
+    else if (kv r "dest").getD "?" ≠ "complete" then (false, s!"after a fault-free retry the final path holds {(kv r "dest").getD "?"}")
+    else if (kv r "child").getD "?" ≠ "ok" then (false, "the fault-free retry did not succeed")
+    else (true, "ok")
+  | _, _, _, _ => (false, "missing summary lines")
+
 def judge (ops impl : List String) : Bool × String :=
   match ops with
   | [l] =>
     let ws := words l
     match ws.head? with
+    | some "download" => judgeDownload ws impl
     | some "trace" => judgeTrace ws impl
     | some "round" => judgeRound ws impl
     | some "symindex" => judgeSymindex ws impl
